@@ -505,6 +505,37 @@ def dao_fresh(prog: Program) -> RuleResult:
     return r
 
 
+def dao_args(prog: Program) -> RuleResult:
+    """from_dao passes to the constructor what it finds under the constructor's parameter names.  Every parameter counts: positional,
+    keyword-only (dataclass fields declared with kw_only=True, such as a back reference to the owning container) - a name that is missing
+    from the list is silently left at its default.  Table of the introspection APIs: inspect.signature(f).parameters lists all kinds;
+    inspect.getfullargspec(f).args and f.__code__.co_varnames[:co_argcount] leave the keyword-only ones out (getfullargspec has them in
+    .kwonlyargs)."""
+    r = RuleResult("DAO-ARGS", "the constructor argument names used by from_dao include keyword-only parameters", floor=1)
+    dao = prog.cls(DAO + ".DataAccessObject")
+    f = prog.lookup(dao.qual, "_argument_names")
+    if f is None:
+        raise AnalysisError("DAO-ARGS: DataAccessObject._argument_names vanished")
+    attrs = {x.attr for x in walk_local(f.node) if isinstance(x, ast.Attribute)}
+    calls = {call_name(c) for c in calls_in(f.node)}
+    why = None
+    if "signature" in calls and "parameters" in attrs:
+        if "kind" in attrs:
+            why = "the parameters are filtered by kind"
+    elif "getfullargspec" in calls or "getargspec" in calls:
+        if not ({"args", "kwonlyargs"} <= attrs):
+            why = "getfullargspec(...).args is used without .kwonlyargs"
+    elif "co_varnames" in attrs:
+        if "co_kwonlyargcount" not in attrs:
+            why = "co_varnames[:co_argcount] is used without the keyword-only part"
+    else:
+        raise AnalysisError("DAO-ARGS: cannot tell how _argument_names lists the constructor's parameters")
+    r.check(why is None, "DataAccessObject._argument_names#keyword-only-included", site(f), src(f.node.body[-1])[:100], "all parameters of the constructor are listed",
+            f"{why}: a keyword-only constructor parameter (WorldEntity.world: field(kw_only=True)) is missing from the names, its column / relationship is skipped and the "
+            "reconstructed object gets the default (every body's .world is None after the round trip)")
+    return r
+
+
 def _opt_truth(prog):
     # the conversion states are passed down optionally; `state or State()` must only ever replace None
     from .opttruth import opt_truth
@@ -520,4 +551,4 @@ def _shared_default(prog):
 
 
 def run(prog: Program, tier: str) -> List[RuleResult]:
-    return [idkey(prog), dao_order(prog), dao_direction(prog), dao_collect(prog), dao_window(prog), dao_value_truth(prog), dao_fresh(prog), _opt_truth(prog), _shared_default(prog)]
+    return [idkey(prog), dao_order(prog), dao_direction(prog), dao_collect(prog), dao_window(prog), dao_value_truth(prog), dao_fresh(prog), _opt_truth(prog), _shared_default(prog), dao_args(prog)]
